@@ -95,9 +95,11 @@ macro_rules! ser_me_tc {
             fn $name(s) {
                 let mut a: [u8; 7] = s.bytes();
                 a[0] = $tc << 3;
-                let r = ME::try_from(&a[..]);
+                // read as ADSB reads it (through the reader, trailing bits left over), not with try_from,
+                // whose "Too much data" check rejects these short variants
+                let r = <ME as DekuContainerRead>::from_bytes((&a[..], 0));
                 vcover!(r.is_ok());
-                if let Ok(me) = r {
+                if let Ok((_, me)) = r {
                     let (r, rec) = record(&me);
                     ok_clean(&r, &rec);
                     core::mem::forget(me);
@@ -300,12 +302,32 @@ top_commb!(top_commb_bds50, d_bds50, bds50);
 top_commb!(top_commb_bds60, d_bds60, bds60);
 top_commb!(top_commb_bds05, d_bds05, bds05);
 
+/// hex::encode by its documented contract ("encodes data as a lowercase hex string", two digits per
+/// byte): the REAL hex::encode collects `char`s into a String, whose UTF-8 encoder branches four ways
+/// on every (symbolic) digit and makes the string length symbolic — timed_frame_* did not finish in
+/// 20 / 30 min with it.  The real function is decided separately on 1- and 2-byte inputs (hex_real_*).
+pub fn hex_encode_contract<T: AsRef<[u8]>>(data: T) -> String {
+    const D: &[u8; 16] = b"0123456789abcdef";
+    let d = data.as_ref();
+    let mut v: Vec<u8> = Vec::with_capacity(2 * d.len());
+    let mut i = 0;
+    while i < d.len() {
+        v.push(D[(d[i] >> 4) as usize]);
+        v.push(D[(d[i] & 15) as usize]);
+        i += 1;
+    }
+    unsafe { String::from_utf8_unchecked(v) }
+}
+
 macro_rules! timed {
     ($name:ident, $n:expr) => {
         harness! {
             #[kani::unwind(66)]
             #[kani::stub(alloc::fmt::format, crate::stubs::fmt_stub)]
-            /// a timed record keeps the input frame as lowercase hex (no decoded message)
+            #[kani::stub(hex::encode, hex_encode_contract)]
+            /// a timed record keeps the input frame as lowercase hex (no decoded message); hex::encode
+            /// (third-party) by contract, the rest — TimedMessage's derived Serialize, as_hex, the
+            /// flattened absent message — is the real code
             fn $name(s) {
                 const N: usize = $n;
                 let f: [u8; N] = s.bytes();
@@ -327,6 +349,32 @@ macro_rules! timed {
         }
     };
 }
+
+macro_rules! hex_real {
+    ($name:ident, $n:expr) => {
+        harness! {
+            #[kani::unwind(12)]
+            /// the REAL hex::encode on every input of this length: two lowercase hex digits per byte, in order
+            fn $name(s) {
+                const N: usize = $n;
+                let f: [u8; N] = s.bytes();
+                let h = hex::encode(&f[..]);
+                let b = h.as_bytes();
+                vcover!(b.len() == 2 * N);
+                vassert!(b.len() == 2 * N, "two digits per byte");
+                const D: &[u8; 16] = b"0123456789abcdef";
+                let mut i = 0;
+                while i < N {
+                    vassert!(b[2 * i] == D[(f[i] >> 4) as usize] && b[2 * i + 1] == D[(f[i] & 15) as usize], "lowercase hex of the input bytes");
+                    i += 1;
+                }
+                core::mem::forget(h);
+            }
+        }
+    };
+}
+hex_real!(hex_real_1, 1);
+hex_real!(hex_real_2, 2);
 timed!(timed_frame_short, 7);
 timed!(timed_frame_long, 14);
 
@@ -336,4 +384,4 @@ registry!(ser_me_bds05, ser_me_bds06, ser_me_bds08, ser_me_bds09, ser_me_bds61, 
           top_adsb_bds05, top_adsb_bds06, top_adsb_bds08, top_adsb_bds09, top_adsb_bds61, top_adsb_bds62, top_adsb_bds65,
           top_commb_bds10, top_commb_bds17, top_commb_bds20, top_commb_bds30, top_commb_bds40, top_commb_bds44, top_commb_bds45,
           top_commb_bds50, top_commb_bds60, top_commb_bds05,
-          timed_frame_short, timed_frame_long);
+          timed_frame_short, timed_frame_long, hex_real_1, hex_real_2);
